@@ -237,6 +237,10 @@ type Node struct {
 	// 5 = the schema is first built with a stand-in for one primitive field, USED once, and then s = base.Extend({that key: the real field}):
 	//     an override of a field of a base that has already been executed.
 	Derive int
+	// Embed (Struct only, >= 2 fields): the destination type declares every second field in an embedded struct, so the schema reaches
+	// them as promoted fields. 1 = through a pointer (*EmbA), 2 = through a value (EmbA), 3 = two levels of pointers (*EmbA, some in *EmbA.*EmbB).
+	// Documented nowhere as different: the schema, the data and the results are the ones of the flat declaration.
+	Embed int
 }
 
 // CoercerSpec is a z.WithCoercer option: the coercer returns Mark (of the node's Go type) for any input, or an error when Fail.
@@ -376,9 +380,27 @@ func (n *Node) GoType() reflect.Type {
 	case Custom:
 		return n.CustomT.Type
 	case Struct:
-		var fs []reflect.StructField
-		for _, f := range n.Fields {
-			fs = append(fs, reflect.StructField{Name: f.GoName, Type: f.Node.GoType(), Tag: reflect.StructTag(TagString(f.Tags))})
+		var fs, l1, l2 []reflect.StructField
+		for i, f := range n.Fields {
+			sf := reflect.StructField{Name: f.GoName, Type: f.Node.GoType(), Tag: reflect.StructTag(TagString(f.Tags))}
+			switch n.EmbLevel(i) {
+			case 1:
+				l1 = append(l1, sf)
+			case 2:
+				l2 = append(l2, sf)
+			default:
+				fs = append(fs, sf)
+			}
+		}
+		if len(l2) > 0 {
+			l1 = append(l1, reflect.StructField{Name: "EmbB", Type: reflect.PointerTo(reflect.StructOf(l2)), Anonymous: true})
+		}
+		if len(l1) > 0 {
+			t := reflect.StructOf(l1)
+			if n.Embed != 2 {
+				t = reflect.PointerTo(t)
+			}
+			fs = append(fs, reflect.StructField{Name: "EmbA", Type: t, Anonymous: true})
 		}
 		for _, x := range n.ExtraFields {
 			fs = append(fs, reflect.StructField{Name: x.GoName, Type: x.Type})
@@ -386,6 +408,18 @@ func (n *Node) GoType() reflect.Type {
 		return reflect.StructOf(fs)
 	}
 	panic("spec: unknown kind")
+}
+
+// EmbLevel says where field i of a struct node lives in the destination type: 0 = declared directly, 1 = promoted from the embedded
+// struct EmbA (a pointer, or a value when Embed == 2), 2 = promoted from *EmbB embedded in *EmbA (Embed == 3).
+func (n *Node) EmbLevel(i int) int {
+	if n.Embed == 0 || len(n.Fields) < 2 || i%2 == 0 {
+		return 0
+	}
+	if n.Embed == 3 && i%4 == 1 {
+		return 2
+	}
+	return 1
 }
 
 // TagString renders a tag set as a struct tag.
